@@ -11,21 +11,24 @@ import (
 
 	"verif/bucket"
 	"verif/inst"
-	"verif/props/loopp"
 	"verif/lsx"
+	"verif/props/loopp"
 	"verif/rng"
 	"verif/runner"
 	"verif/sched"
 )
 
 type quietFleet struct {
-	DupSort bool `json:"dupsort,omitempty"` // shadow mode with dupsort_hack and a dupsort DBI (emptied on every instance)
-	ForcedMS int   `json:"forced_interval_ms,omitempty"` // storage_force_snapshot_interval
-	Native  bool   `json:"native"`
-	Padding bool   `json:"padding"`
-	N       int    `json:"n"`
-	Writes  int    `json:"writes"`
-	Seed    uint64 `json:"seed"`
+	DupSort  bool   `json:"dupsort,omitempty"`            // shadow mode with dupsort_hack and a dupsort DBI (emptied on every instance)
+	ForcedMS int    `json:"forced_interval_ms,omitempty"` // storage_force_snapshot_interval
+	Native   bool   `json:"native"`
+	Padding  bool   `json:"padding"`
+	N        int    `json:"n"`
+	Writes   int    `json:"writes"`
+	Seed     uint64 `json:"seed"`
+	// LateAt: after the writers stopped, one more application commit (the newest version of its key) is placed on
+	// instance i0 exactly at this yield point of i0's own sync loop, followed by silence: it must still reach everyone
+	LateAt string `json:"late_at,omitempty"`
 }
 
 type c10Params struct {
@@ -286,6 +289,7 @@ func RunConvergingFleet(q quietFleet, env *runner.Env, res *runner.Result) {
 	all := map[string][]wv{}
 	base := uint64(time.Now().UnixNano())
 	last := map[string]uint64{}
+	lateKey, lateVal := "", ""
 	for w := 0; w < q.Writes; w++ {
 		i := r.Intn(len(insts))
 		x := insts[i]
@@ -321,6 +325,43 @@ func RunConvergingFleet(q quietFleet, env *runner.Env, res *runner.Result) {
 		time.Sleep(time.Duration(r.Intn(1500)) * time.Microsecond)
 	}
 	const wd = 30 * time.Second
+	if q.LateAt != "" && !q.DupSort {
+		x := insts[0]
+		key := "k0"
+		ts := base + 1_000_000
+		val := "late-write"
+		arm := s.ArmAt(x.Name, q.LateAt, 1, func(sched.Event) {
+			s.Note(x.Name, "APP BEGIN "+key)
+			_, _ = lmdbx.Update(x.Env, func(txn *lmdb.Txn) error {
+				if q.Native {
+					return inst.NativePut(txn, "d", []byte(key), ts, false, []byte(val))
+				}
+				return lmdbx.Put(txn, "d", 0, []byte(key), []byte(val))
+			})
+			s.Note(x.Name, "APP COMMIT "+key)
+		})
+		// a trigger write (an older version of another key) makes i0 go through a send, so that send.* points occur
+		_, _ = lmdbx.Update(x.Env, func(txn *lmdb.Txn) error {
+			if q.Native {
+				return inst.NativePut(txn, "d", []byte("trigger"), base, false, []byte("t"))
+			}
+			return lmdbx.Put(txn, "d", 0, []byte("trigger"), []byte("t"))
+		})
+		deadline := time.Now().Add(wd)
+		for !s.Fired(arm) {
+			if time.Now().After(deadline) {
+				res.Verdict, res.Msg = runner.Inconclusive, "yield point "+q.LateAt+" was not reached"
+				return
+			}
+			time.Sleep(200 * time.Microsecond)
+		}
+		v := wv{ts, false, val}
+		all[key] = append(all[key], v)
+		best[key] = v
+		res.Count("late_writes_at_yield_points", 1)
+		res.Add("late_write_points", q.LateAt)
+		lateKey, lateVal = key, val
+	}
 	for round := 0; round < 4; round++ {
 		for _, l := range loops {
 			if ok, why := l.WaitQuiescent(nil, 5, wd); !ok {
@@ -368,6 +409,14 @@ func RunConvergingFleet(q quietFleet, env *runner.Env, res *runner.Result) {
 		res.Count("keys_with_conflicting_versions", int64(conflicts))
 	} else {
 		a0, _ := insts[0].App()
+		if lateKey != "" {
+			for i, x := range insts {
+				ai, _ := x.App()
+				if ai["d"][lateKey] != lateVal {
+					res.Violate("newest-write-not-propagated", fmt.Sprintf("i0 committed d[%s]=%q at its yield point %s after all other writes and then stayed silent; idle fleet: i%d holds %q", lateKey, lateVal, q.LateAt, i, ai["d"][lateKey]), wit)
+				}
+			}
+		}
 		for i := 1; i < len(insts); i++ {
 			ai, _ := insts[i].App()
 			if fmt.Sprint(a0) != fmt.Sprint(ai) {
